@@ -11,8 +11,5 @@ def classify(name, case, msg):
     # class (evaluated by the model driver for the case) — the harness passes that verdict in `listed_by_model`.
     if case.get("nep18_probe") and case.get("listed_by_model") is True:
         return "F-nep18-signature"
-    # F-clip-out: the namespace wrapper sparse.clip accepts `out` and does not pass it on (region = ExcludedDropped: parameter
-    # `out` of a wrapper); reached as sparse.clip(out=) and, through NEP-18, as np.clip(out=)
-    if name == "out" and case.get("op") == "clip" and case.get("param") == "out" and case.get("spelling") in ("sparse.clip(out=)", "np.clip(out=)"):
-        return "F-clip-out"
+    # (F-clip-out — sparse.clip ignored `out` — was repaired in 7d0ce74; its witness stays in harness/c17.py and must pass)
     return None
